@@ -44,12 +44,14 @@ def _find_func(tree, name, cls=None):
     raise ExtractionError(f"function {name} not found")
 
 
-def _events(fn, inline_nested: bool = False, returns: bool = False, strict: bool = True, attrs: tuple = ()) -> list[str]:
+def _events(fn, inline_nested: bool = False, returns: bool = False, strict: bool = True, attrs: tuple = (),
+            kwconst: bool = False) -> list[str]:
     """name of every call and raise in the body of `fn` (not in nested defs), in evaluation-ish = source order;
     a call's arguments come before the call itself.  `inline_nested`: the body of a nested `def` is listed where it is defined
     (it cannot run earlier); `returns`: `return` statements are listed as "return"; `strict=False`: a call of something that is
     not a dotted name is listed as "<expr>" instead of failing; `attrs`: reads of these attribute names (cached properties) are
-    listed too, as dotted names."""
+    listed too, as dotted names; `kwconst` (round 9): a call with constant keyword arguments is listed as `name(kw=const,…)` (so that
+    `self.mapspecs(ordered=False)` is not `self.mapspecs`)."""
     out = []
 
     def visit(node):
@@ -73,6 +75,10 @@ def _events(fn, inline_nested: bool = False, returns: bool = False, strict: bool
                 if strict:
                     raise ExtractionError(f"call of a non-name at line {node.lineno}")
                 name = "<expr>"
+            if kwconst:
+                kws = [f"{k.arg}={k.value.value!r}" for k in node.keywords if k.arg and isinstance(k.value, ast.Constant)]
+                if kws:
+                    name += "(" + ",".join(kws) + ")"
             out.append(name)
             return
         if isinstance(node, ast.Raise):
@@ -90,7 +96,7 @@ def _events(fn, inline_nested: bool = False, returns: bool = False, strict: bool
     return out
 
 
-def _unconditional(fn) -> list[str]:
+def _unconditional(fn, attrs: tuple = ()) -> list[str]:
     """names of the calls (and `raise`s) that EVERY execution of `fn` that reaches its end makes, in source order: the calls in
     the top-level statements of the body (and of `with` bodies), the test of a top-level `if` / `while` included, but nothing
     inside the branches of a compound statement, the later operands of `and` / `or`, the branches of a conditional expression,
@@ -99,6 +105,9 @@ def _unconditional(fn) -> list[str]:
     out = []
 
     def expr(node):
+        if attrs and isinstance(node, (ast.ListComp, ast.SetComp, ast.DictComp, ast.GeneratorExp)):
+            expr(node.generators[0].iter)        # round 9: the iterable of the FIRST `for` of a comprehension is always evaluated
+            return
         if node is None or isinstance(node, (ast.Lambda, ast.ListComp, ast.SetComp, ast.DictComp, ast.GeneratorExp)):
             return
         if isinstance(node, ast.BoolOp):
@@ -113,6 +122,10 @@ def _unconditional(fn) -> list[str]:
             if not isinstance(node.func, (ast.Name, ast.Attribute)):
                 expr(node.func)
             out.append(_dotted(node.func) or "<expr>")
+            return
+        if attrs and isinstance(node, ast.Attribute) and node.attr in attrs and isinstance(node.ctx, ast.Load):
+            expr(node.value)
+            out.append(_dotted(node) or "<expr>." + node.attr)
             return
         for child in ast.iter_child_nodes(node):
             expr(child)
@@ -204,6 +217,41 @@ EXTRA = [
     ("pipeFuncClearCacheCalls", "pipefunc/_pipefunc.py", "PipeFunc", "_clear_internal_cache", {"returns": True, "strict": False}),
     ("validateCompleteInputsCalls", "pipefunc/map/_prepare.py", None, "_validate_complete_inputs",
      {"returns": True, "strict": False, "attrs": ("topological_generations",)}),
+    # round 9: the CALL path — what `run` / `__call__` / `func(...)()` evaluate before `_run` invokes anything, link by link:
+    # run -> mapspec_names -> mapspecs() [ordered by default] -> sorted_functions -> topological_generations (-> graph, networkx)
+    ("callRunCalls", "pipefunc/_pipeline/_base.py", "Pipeline", "run",
+     {"returns": True, "strict": False, "attrs": ("mapspec_names",), "kwconst": True}),
+    ("callInnerRunCalls", "pipefunc/_pipeline/_base.py", "Pipeline", "_run", {"returns": True, "strict": False}),
+    ("callDunderCalls", "pipefunc/_pipeline/_base.py", "Pipeline", "__call__", {"returns": True, "strict": False}),
+    ("callFuncCalls", "pipefunc/_pipeline/_base.py", "Pipeline", "func", {"returns": True, "strict": False}),
+    ("callAsFuncCalls", "pipefunc/_pipeline/_base.py", "_PipelineAsFunc", "__call__", {"returns": True, "strict": False}),
+    ("callRootArgsCalls", "pipefunc/_pipeline/_base.py", "Pipeline", "root_args",
+     {"returns": True, "strict": False, "attrs": ("node_mapping",)}),
+    ("callArgCombinationsCalls", "pipefunc/_pipeline/_base.py", "Pipeline", "arg_combinations",
+     {"returns": True, "strict": False, "attrs": ("node_mapping", "graph")}),
+    ("callFuncDependenciesCalls", "pipefunc/_pipeline/_base.py", "Pipeline", "func_dependencies",
+     {"returns": True, "strict": False, "attrs": ("node_mapping", "graph")}),
+    ("callMapspecNamesCalls", "pipefunc/_pipeline/_base.py", "Pipeline", "mapspec_names",
+     {"returns": True, "strict": False, "kwconst": True}),
+    ("callMapspecsCalls", "pipefunc/_pipeline/_base.py", "Pipeline", "mapspecs",
+     {"returns": True, "strict": False, "attrs": ("sorted_functions", "functions")}),
+    ("callSortedFunctionsCalls", "pipefunc/_pipeline/_base.py", "Pipeline", "sorted_functions",
+     {"returns": True, "strict": False, "attrs": ("topological_generations",)}),
+    ("callNodeMappingCalls", "pipefunc/_pipeline/_base.py", "Pipeline", "node_mapping",
+     {"returns": True, "strict": False, "attrs": ("graph",)}),
+]
+
+# round 9: calls and cached-property reads made on EVERY path (`_unconditional`) through the functions that carry the cycle check at
+# construction: add -> _validate -> _validate_mapspec -> _autogen_mapspec_axes -> topological_generations
+UNCOND = [
+    ("ctorAddUncond", "pipefunc/_pipeline/_base.py", "Pipeline", "add", ()),
+    ("ctorValidateUncond", "pipefunc/_pipeline/_base.py", "Pipeline", "_validate", ()),
+    ("ctorValidateMapspecUncond", "pipefunc/_pipeline/_base.py", "Pipeline", "_validate_mapspec", ()),
+    ("ctorAutogenUncond", "pipefunc/_pipeline/_base.py", "Pipeline", "_autogen_mapspec_axes", ("topological_generations",)),
+    ("callRunUncond", "pipefunc/_pipeline/_base.py", "Pipeline", "run", ("mapspec_names",)),
+    ("callSortedFunctionsUncond", "pipefunc/_pipeline/_base.py", "Pipeline", "sorted_functions", ("topological_generations",)),
+    ("callTopoUncond", "pipefunc/_pipeline/_base.py", "Pipeline", "topological_generations", ("graph",)),
+    ("callGraphUncond", "pipefunc/_pipeline/_base.py", "Pipeline", "graph", ()),
 ]
 
 
@@ -218,7 +266,28 @@ def extract_extra(repo: str) -> dict[str, tuple[list[str] | None, str]]:
             out[name] = (_events(_find_func(trees[rel], fn, cls), **opts), "")
         except (ExtractionError, OSError, SyntaxError) as e:
             out[name] = (None, f"{type(e).__name__}: {e}")
+    for name, rel, cls, fn, attrs in UNCOND:
+        try:
+            if rel not in trees:
+                trees[rel] = ast.parse((Path(repo) / rel).read_text())
+            out[name] = (_unconditional(_find_func(trees[rel], fn, cls), attrs), "")
+        except (ExtractionError, OSError, SyntaxError) as e:
+            out[name] = (None, f"{type(e).__name__}: {e}")
     return out
+
+
+def extract_mapspecs_default(repo: str) -> list[str]:
+    """round 9: the default of the keyword `ordered` of `Pipeline.mapspecs` (`mapspec_names` calls it without arguments), as `repr`"""
+    tree = ast.parse((Path(repo) / "pipefunc" / "_pipeline" / "_base.py").read_text())
+    fn = _find_func(tree, "mapspecs", "Pipeline")
+    for a, d in zip(fn.args.kwonlyargs, fn.args.kw_defaults):
+        if a.arg == "ordered" and isinstance(d, ast.Constant):
+            return [repr(d.value)]
+    pos = fn.args.args[len(fn.args.args) - len(fn.args.defaults):]
+    for a, d in zip(pos, fn.args.defaults):
+        if a.arg == "ordered" and isinstance(d, ast.Constant):
+            return [repr(d.value)]
+    raise ExtractionError("Pipeline.mapspecs has no constant default for `ordered`")
 
 
 def _render_list(name: str, doc: str, calls: list[str] | None, why: str) -> str:
@@ -246,6 +315,12 @@ def render(calls: list[str] | None, why: str = "", extra: dict | None = None) ->
     for name, rel, cls, fn, _ in EXTRA:
         c, w = (extra or {}).get(name, (None, "not extracted"))
         body += "\n" + _render_list(name, f"calls, `raise`s and `return`s of `{(cls + '.') if cls else ''}{fn}` ({rel}), in source order", c, w)
+    for name, rel, cls, fn, _ in UNCOND:
+        c, w = (extra or {}).get(name, (None, "not extracted"))
+        body += "\n" + _render_list(name, f"calls and cached-property reads that EVERY execution of `{cls}.{fn}` ({rel}) reaching its end makes "
+                                    "(top-level statements only), in source order", c, w)
+    c, w = (extra or {}).get("callMapspecsOrderedDefault", (None, "not extracted"))
+    body += "\n" + _render_list("callMapspecsOrderedDefault", "`repr` of the default of the keyword `ordered` of `Pipeline.mapspecs`", c, w)
     return head + body + "\nend PF.Generated\n"
 
 
@@ -260,6 +335,10 @@ def write(repo: str | None = None) -> tuple[bool, str]:
         extra["prepareRunUnconditional"] = (extract_unconditional(repo), "")
     except (ExtractionError, OSError, SyntaxError) as e:
         extra["prepareRunUnconditional"] = (None, f"{type(e).__name__}: {e}")
+    try:
+        extra["callMapspecsOrderedDefault"] = (extract_mapspecs_default(repo), "")
+    except (ExtractionError, OSError, SyntaxError) as e:
+        extra["callMapspecsOrderedDefault"] = (None, f"{type(e).__name__}: {e}")
     bad = [f"{n}: {w}" for n, (c, w) in extra.items() if c is None]
     text = render(calls, why, extra)
     OUT.parent.mkdir(parents=True, exist_ok=True)
